@@ -2,6 +2,7 @@
 CONSTANTS
   Kind = "l1info"
   Fixed = TRUE
+  FixedF11 = TRUE
   H = 2
   MaxBlocks = 2
   MaxEvents = 2
